@@ -1,7 +1,7 @@
 ------------------------- MODULE Trace_MetadataFSM -------------------------
 (* Trace validation for MetadataFSM.tla.  Every line of trace.ndjson is one  *)
 (* real call (Server.apply live or replayed, Snapshot, Persist, a restart,   *)
-(* Restore, finishedRecovery) on server A with A's projected state after it, *)
+(* Restore, finishedRecovery / finishRestore) on server A with A's projected state after it, *)
 (* plus the projection of server B which applied the same operations and     *)
 (* never restarted.                                                          *)
 (*   FAIL "P" name tag : a C06 requirement fails on real behaviour           *)
@@ -29,6 +29,7 @@ GroupOf(j) ==
         heap |-> [s \in DOMAIN j.heap |-> ToSet(j.heap[s])],
         asg |-> j.asg, cnt |-> j.cnt, epoch |-> j.epoch, coord |-> j.coord]
 GroupsOf(js) == [g \in GroupIds |-> GroupOf(js[g])]
+GrecOf(js) == [g \in GroupIds |-> js[g]]
 SnapGroupsOf(js) == [g \in DOMAIN js |-> [members |-> [i \in DOMAIN js[g].members |-> [c |-> js[g].members[i].c, S |-> ToSet(js[g].members[i].S)]],
                                            epoch |-> js[g].epoch, coord |-> js[g].coord]]
 RefOf(j) == IF ~j.has THEN NoRef
@@ -48,7 +49,7 @@ EmptyPre == [streams |-> <<>>, groups |-> [g \in GroupIds |-> NoGroup], disk |->
 
 TraceInit ==
   LET e == Trace[1] IN
-  /\ streams = StreamsOf(e.st.streams) /\ groups = GroupsOf(e.st.groups) /\ lastPub = e.st.lastPub
+  /\ streams = StreamsOf(e.st.streams) /\ groups = GroupsOf(e.st.groups) /\ grec = GrecOf(e.st.grec) /\ lastPub = e.st.lastPub
   /\ disk = e.st.disk /\ applied = e.st.applied /\ mode = e.st.mode /\ nrep = e.st.nrep
   /\ sref = RefOf(e.st.sref) /\ snap = SnapOf(e.st.snap) /\ pre = EmptyPre /\ obs = e.obs
   /\ other = [streams |-> StreamsOf(e.other.streams), groups |-> GroupsOf(e.other.groups)]
@@ -56,7 +57,7 @@ TraceInit ==
   /\ l = 2
 
 Bind(e) ==
-  /\ streams' = StreamsOf(e.st.streams) /\ groups' = GroupsOf(e.st.groups) /\ lastPub' = e.st.lastPub
+  /\ streams' = StreamsOf(e.st.streams) /\ groups' = GroupsOf(e.st.groups) /\ grec' = GrecOf(e.st.grec) /\ lastPub' = e.st.lastPub
   /\ disk' = e.st.disk /\ applied' = e.st.applied /\ mode' = e.st.mode /\ nrep' = e.st.nrep
   /\ sref' = RefOf(e.st.sref) /\ obs' = e.obs
   \* the persisted snapshot is logged only when it changes
@@ -85,7 +86,7 @@ ImplOf(e) ==
     \* real one-node server (TestVerifMetadataRealRestart): only the state before a
     \* restart (Sync) and after recovery (FinishReal) is recorded, no step-level claim
     [] e.a \in {"Sync", "FinishReal"} -> TRUE
-    [] OTHER -> UNCHANGED <<streams, groups, lastPub, disk, applied, mode, nrep, sref, snap, pre>>
+    [] OTHER -> UNCHANGED <<streams, groups, grec, lastPub, disk, applied, mode, nrep, sref, snap, pre>>
 
 \* determinism: while A serves (live), it agrees with B
 Live == mode' = "live"
@@ -125,6 +126,7 @@ TraceNext ==
      /\ Chk(Det_GroupEpoch, "P", e, "Det_GroupEpoch")
      /\ Chk(Det_GroupAsg, "P", e, "Det_GroupAsg")
      /\ Chk(NoTombLive', "P", e, "NoTombLive")
+     /\ Chk(NoRecLive', "P", e, "NoRecLive")
      /\ Chk(GroupsValid', "P", e, "GroupsValid")
      /\ Chk(GroupsFine', "I", e, "GroupsFine")
      /\ Chk(EpochsFine', "I", e, "EpochsFine")
